@@ -6,6 +6,7 @@ import (
 	"fmt"
 	"go/ast"
 	"go/constant"
+	"go/token"
 	"go/types"
 	"sort"
 	"strings"
@@ -487,17 +488,22 @@ func c02NewerOf(p *Prog, r *Report) {
 			if !n.IsCond {
 				continue
 			}
-			if c, isC := ast.Unparen(n.Ast.(ast.Expr)).(*ast.CallExpr); isC && p.callIs(fi.Pkg, c, "(internal/model/sequence.Seq).Zero") {
-				// true edge returns ErrNotFound
+			if zeroLabel, isZ := zeroTest(p, fi, n); isZ {
+				// the zero edge returns ErrNotFound, the other edge returns without it
+				good := true
+				seen := 0
 				for _, e := range n.Succs {
-					if e.Label == 1 {
-						for id := range f.Reach([]int{e.To}, nil, nil) {
-							if rs := f.returnStmt(id); rs != nil && len(rs.Results) == 2 && strings.Contains(valueKey(info, rs.Results[1]), "fs_db.ErrNotFound") {
-								ok = true
+					for id := range f.Reach([]int{e.To}, nil, nil) {
+						if rs := f.returnStmt(id); rs != nil && len(rs.Results) == 2 {
+							seen++
+							nf := strings.Contains(valueKey(info, rs.Results[1]), "fs_db.ErrNotFound")
+							if nf != (e.Label == zeroLabel) {
+								good = false
 							}
 						}
 					}
 				}
+				ok = good && seen >= 2
 			}
 		}
 		merges := f.CallNodes(kFileLatestM)
@@ -510,8 +516,8 @@ func c02NewerOf(p *Prog, r *Report) {
 		dropsZero := false
 		for _, n := range f.Nodes {
 			if n.IsCond {
-				if c, isC := ast.Unparen(n.Ast.(ast.Expr)).(*ast.CallExpr); isC && p.callIs(fi.Pkg, c, "(internal/model/sequence.Seq).Zero") {
-					// on the true edge no append before the next iteration
+				if zeroLabel, isZ := zeroTest(p, fi, n); isZ {
+					// on the zero edge no append before the next iteration
 					appends := f.Match(func(gn *GNode) bool {
 						if as, ok := gn.Ast.(*ast.AssignStmt); ok && len(as.Rhs) == 1 {
 							if cc, ok := ast.Unparen(as.Rhs[0]).(*ast.CallExpr); ok {
@@ -523,7 +529,7 @@ func c02NewerOf(p *Prog, r *Report) {
 						return false
 					})
 					for _, e := range n.Succs {
-						if e.Label == 1 {
+						if e.Label == zeroLabel {
 							reach := f.Reach([]int{e.To}, func(x *GNode) bool { return x.Block.Kind.String() == "RangeLoop" && x.Ast == nil }, nil)
 							hit := false
 							for _, a := range appends {
@@ -540,6 +546,29 @@ func c02NewerOf(p *Prog, r *Report) {
 		_ = info
 		r.Check(usesLatest && dropsZero, "C02.c", kMergeFiles, p.pos(fi.Decl), "Latest per key, zero-Seq entries dropped", "mergeFiles does not merge per key with Latest or lists entries without a version")
 	}
+}
+
+// zeroTest recognises a condition node that is Seq.Zero() under any number of negations and returns the edge
+// label on which the sequence number is zero.
+func zeroTest(p *Prog, fi *FuncInfo, n *GNode) (int, bool) {
+	e, ok := n.Ast.(ast.Expr)
+	if !ok || !n.IsCond {
+		return 0, false
+	}
+	label := 1
+	for {
+		e = ast.Unparen(e)
+		if u, ok := e.(*ast.UnaryExpr); ok && u.Op == token.NOT {
+			label = 3 - label
+			e = u.X
+			continue
+		}
+		break
+	}
+	if c, isC := e.(*ast.CallExpr); isC && p.callIs(fi.Pkg, c, "(internal/model/sequence.Seq).Zero") {
+		return label, true
+	}
+	return 0, false
 }
 
 // evalMethod evaluates a pure method abstractly with the given receiver/arguments.
@@ -576,6 +605,14 @@ func evalMethod(p *Prog, fi *FuncInfo, args ...*Val) (v *Val, err error) {
 }
 
 func c02Unlink(p *Prog, r *Report) {
+	// "unlinks x": x.DeleteLink(), or x handed to a module function that does so on every path
+	unl := p.newMustUse("unlink", func(fi *FuncInfo, c *ast.CallExpr, match func(ast.Expr) bool) bool {
+		if !p.callIs(fi.Pkg, c, kNodeDeleteLink) {
+			return false
+		}
+		sel, ok := ast.Unparen(c.Fun).(*ast.SelectorExpr)
+		return ok && match(sel.X)
+	})
 	for _, k := range []string{kUpdateTx, kCoreDeleteTx, kCoreDeleteOld} {
 		fi := p.Func(k)
 		if fi == nil {
@@ -584,21 +621,40 @@ func c02Unlink(p *Prog, r *Report) {
 		}
 		info := fi.Pkg.TypesInfo
 		f := p.FlatOf(fi)
-		// node variables assigned from pops
+		// node variables assigned from pops; pops handed straight to an unlinking call
 		popVars := map[types.Object]bool{}
 		var popNodes []int
+		direct := 0
 		for _, n := range f.Nodes {
-			as, ok := n.Ast.(*ast.AssignStmt)
-			if !ok || len(as.Rhs) != 1 || len(as.Lhs) != 1 {
+			if n.Ast == nil {
 				continue
 			}
-			if c, ok := ast.Unparen(as.Rhs[0]).(*ast.CallExpr); ok && p.callIs(fi.Pkg, c, "(*internal/model/core.file).PopBack", "(*internal/model/core.file).PopFront") {
-				popVars[objOf(info, as.Lhs[0])] = true
-				popNodes = append(popNodes, n.ID)
+			for _, pc := range callsIn(n.Ast, false) {
+				if !p.callIs(fi.Pkg, pc, "(*internal/model/core.file).PopBack", "(*internal/model/core.file).PopFront") {
+					continue
+				}
+				if as, ok := n.Ast.(*ast.AssignStmt); ok && len(as.Rhs) == 1 && len(as.Lhs) == 1 && ast.Unparen(as.Rhs[0]) == ast.Expr(pc) {
+					if o := objOf(info, as.Lhs[0]); o != nil {
+						popVars[o] = true
+						popNodes = append(popNodes, n.ID)
+						continue
+					}
+				}
+				used := false
+				for _, c := range callsIn(n.Ast, false) {
+					if c != pc && unl.CallUses(fi, c, func(e ast.Expr) bool { return ast.Unparen(e) == ast.Expr(pc) }) {
+						used = true
+					}
+				}
+				direct++
+				r.Check(used, "C02.d", fmt.Sprintf("%s#unlink/direct%d", k, direct), p.pos(pc), "the popped node is handed straight to an unlinking call",
+					"a node popped from the transaction's list is neither kept in a variable nor handed to DeleteLink: the version stays in the all-store")
 			}
 		}
 		if len(popNodes) == 0 {
-			r.Viol("C02.d", k+"#unlink", p.pos(fi.Decl), "no pop with a node variable found")
+			if direct == 0 {
+				r.Viol("C02.d", k+"#unlink", p.pos(fi.Decl), "no pop found")
+			}
 			continue
 		}
 		// direct unlink: n.DeleteLink() in the body; or collected: slice = append(slice, n) and a deferred closure ranges the slice calling DeleteLink
@@ -630,10 +686,8 @@ func c02Unlink(p *Prog, r *Report) {
 				vobj := objOf(info, rs.Value)
 				unlinks := false
 				ast.Inspect(rs.Body, func(z ast.Node) bool {
-					if c, ok := z.(*ast.CallExpr); ok && p.callIs(fi.Pkg, c, kNodeDeleteLink) {
-						if sel, ok := c.Fun.(*ast.SelectorExpr); ok && objOf(info, sel.X) == vobj {
-							unlinks = true
-						}
+					if c, ok := z.(*ast.CallExpr); ok && unl.CallUses(fi, c, func(e ast.Expr) bool { return vobj != nil && objOf(info, e) == vobj }) {
+						unlinks = true
 					}
 					return true
 				})
@@ -667,10 +721,8 @@ func c02Unlink(p *Prog, r *Report) {
 		}
 		handled := f.Match(func(n *GNode) bool {
 			for _, c := range callsIn(n.Ast, false) {
-				if p.callIs(fi.Pkg, c, kNodeDeleteLink) {
-					if sel, ok := c.Fun.(*ast.SelectorExpr); ok && popVars[objOf(info, sel.X)] {
-						return true
-					}
+				if unl.CallUses(fi, c, func(e ast.Expr) bool { o := objOf(info, e); return o != nil && popVars[o] }) {
+					return true
 				}
 			}
 			if as, ok := n.Ast.(*ast.AssignStmt); ok && len(as.Lhs) == 1 && len(as.Rhs) == 1 && collectors[objOf(info, as.Lhs[0])] {
